@@ -24,7 +24,10 @@ KEYSET_METHODS = {"insert", "remove", "clear", "retain", "drain", "extend", "ent
 
 
 def run(ctx, rep):
-    for cfg in ctx.tera_configs():
+    cfgs = list(ctx.tera_configs())
+    if "tera:glob_fs" not in cfgs:
+        cfgs.append("tera:glob_fs")      # load_from_glob / full_reload only exist under this feature: part of the quick tier for this property
+    for cfg in cfgs:
         crate = ctx.crate(cfg)
         check_commit(crate, rep, cfg)
         check_undo(crate, rep, cfg)
